@@ -14,6 +14,7 @@ for src in map(pathlib.Path, sys.argv[1:]):
         d = d.replace('"/tmp/seedtools"', 'str(__import__("pathlib").Path(__file__).resolve().parents[2] / "harness")')
         d = d.replace("'/tmp/seedtools'", 'str(__import__("pathlib").Path(__file__).resolve().parents[2] / "harness")')
         d = d.replace("import envboot", "import boot as envboot")
+        d = d.replace("SEED_REPO", "VERIF_REPO")
         (dst / "demo.py").write_text(d)
     meta = json.loads((src / "meta.json").read_text()) if (src / "meta.json").exists() else {}
     meta.setdefault("property", src.name.split("-")[0])
